@@ -257,4 +257,30 @@ def c03f(prog, R):
             su = [n for n in hir_walk(h["body"]) if n.get("k") == "mcall" and n.get("m") == "seek_upper"]
             r.check(bool(sl) and bool(su), "%s|fresh inner iterator gets both stored bounds" % nm,
                     "a freshly loaded index block is not clamped on both sides in this direction", "", "%d lower / %d upper seeks" % (len(sl), len(su)))
-    r.floor(14)
+    # the double-ended peekable under MvccStream: front operations fall back to the back slot and vice versa, and
+    # next_if sees exactly what next() sees
+    DP = "double_ended_peekable::DoubleEndedPeekable::<T, I>::"
+    def body(name):
+        k = [k for k in prog.hir if k.endswith(name) and "DoubleEndedPeekable" in k]
+        return prog.hir[k[0]]["body"] if k else None
+    nx, nb = body("as std::iter::Iterator>::next"), body("as std::iter::DoubleEndedIterator>::next_back")
+    pk, pb, ni = body("::peek"), body("::peek_back"), body("::next_if")
+    if not all([nx, nb, pk, pb, ni]):
+        r.anchor_missing("DoubleEndedPeekable next / next_back / peek / peek_back / next_if")
+    else:
+        def count(b, txt):
+            return sum(1 for n in hir_walk(b) if n.get("k") == "mcall" and hir_expr_str(n) == txt)
+        r.check(count(nx, "self.back.take().into_peeked_value()") == 2, "DoubleEndedPeekable::next|falls back to the back slot when the front / inner iterator is exhausted",
+                "next() no longer drains the back peek slot", "")
+        r.check(count(nb, "self.front.take().into_peeked_value()") == 2, "DoubleEndedPeekable::next_back|falls back to the front slot",
+                "next_back() no longer drains the front peek slot", "")
+        r.check(any(hir_expr_str(n) == "self.back.peeked_value_ref()" for n in hir_walk(pk)), "DoubleEndedPeekable::peek|falls back to the back slot",
+                "peek() ignores an item parked in the back slot", "")
+        r.check(any(hir_expr_str(n) == "self.front.peeked_value_ref()" for n in hir_walk(pb)), "DoubleEndedPeekable::peek_back|falls back to the front slot",
+                "peek_back() ignores an item parked in the front slot", "")
+        ms = [n for n in hir_walk(ni) if n.get("k") == "match"]
+        r.check(bool(ms) and hir_expr_str(ms[0]["e"]) == "self.next()", "DoubleEndedPeekable::next_if|defined through next()",
+                "next_if no longer takes its item through next(): it misses an item parked in the back slot, so when both ends of "
+                "a scan meet inside one key's versions the old version is not drained and surfaces as a duplicate", "",
+                str([hir_expr_str(m["e"]) for m in ms]))
+    r.floor(19)
